@@ -42,6 +42,15 @@ def rowcol(hh, lgk):
     return rc
 
 
+def source_is_repaired():
+    """the shape of `deserialize` on an empty image as the translator read it from the CURRENT headers (DSGen/Cpc.lean)"""
+    try:
+        txt = open(os.path.join(core.LEAN, "DSGen", "Cpc.lean")).read()
+    except OSError:
+        return False
+    return "cpc_DESER_EMPTY_KXP_IS_K : Bool := true" in txt
+
+
 def parse_S(line):
     w = line.split()
     if len(w) not in (12, 14) or w[0] != "S":
@@ -104,7 +113,7 @@ class C05(Spec):
     assumptions = ["theorems are about DSModel/Cpc/*.lean; the tie to cpc_*_impl.hpp is differential (sampled), incl. byte-exact serialized images",
                    "window offset > 56 (needs > 59.375 K distinct coupons, i.e. coupons in columns 57..63) is outside the modelled behaviour",
                    "floating point (kxp, HIP, ICON) is executed bit-exactly in Lean Float but not reasoned about",
-                   "the preamble byte layout of the image is tied by correspondence (and C09/C10), the compress/uncompress core is proved",
+                   "serialize/deserialize are proved at the level of byte lists of the model; the model's bytes are tied to the code's by correspondence",
                    "for lg_k > 14 the model reports validate() by its proven value instead of building the 2^lg_k-row matrix"]
 
     # ------------------------------------------------------------------ generator
@@ -446,8 +455,12 @@ class C05(Spec):
                         uhist.setdefault(me, []).append(" ".join(w[:1] + w[2:]))
                         for other, c_at in twins.get(me, []):
                             if other in lastobs and uhist.get(other) == uhist[me] and lastobs[other] != o["core"]:
-                                key = ("deserialized-empty-sketch-estimator-state-lost" if c_at == 0
-                                       else "deserialized-sketch-diverges-after-same-updates")
+                                if c_at != 0:
+                                    key = "deserialized-sketch-diverges-after-same-updates"
+                                elif source_is_repaired():
+                                    key = "deserialized-empty-sketch-estimator-state-lost-although-source-has-repaired-shape"
+                                else:
+                                    key = "deserialized-empty-sketch-estimator-state-lost"
                                 bad.append((key, "C at round trip=%d lg_k=%d: %s vs %s" % (c_at, o["lgk"], lastobs[other][:60], o["core"][:60]), i))
                     lastobs[me] = o["core"]
             lgk, st, mg = tgt
@@ -584,9 +597,11 @@ CLAIM = dict(
           "the tables regenerated from compression_data.hpp. Plus a differential tie of the model (bit-exact HIP/ICON numbers, byte-exact "
           "serialized images, round trips at every stage) to the real headers, plus the property oracle (distinct row/col recomputed from the "
           "Lean MurmurHash3; every image decoded by the model's decoder) on every trace."),
-    note=("Full image-level losslessness is FALSE on the current code (cpc_image_lossless_full_false): a deserialized EMPTY sketch gets "
-          "kxp = 0 instead of k and reports +inf after updates - open known finding with a proposed fix. Modelled, not verified: the u32_table "
-          "open-addressing layout (L1: sorted list), the preamble byte layout (correspondence only). Window offsets beyond 56 (unreachable "
-          "without coupons in columns 57..63) are outside the model. Floating point is executed, not reasoned about."),
+    note=("Image-level losslessness (preamble + compressed payload, incl. both HIP registers) is proved in full for the CURRENT source "
+          "(cpc_image_lossless_current); the translator reads from cpc_sketch_impl.hpp whether deserialize of an empty image starts with "
+          "kxp = 2^lg_k (repaired by fix de90ce5, found by this check) or 0 (pinned shape, for which the statement is proved FALSE: "
+          "cpc_image_lossless_full_false); model, theorem selection and oracle key follow that flag, so reverting the fix is a violation "
+          "with a failing input. Modelled, not verified: the u32_table open-addressing layout (L1: sorted list). Window offsets beyond 56 "
+          "(unreachable without coupons in columns 57..63) are outside the model. Floating point is executed, not reasoned about."),
     technique="Lean 4 invariant proofs by induction over coupon streams / union histories, code round-trip proofs + decide +kernel table obligations, differential correspondence (model vs real headers) + trace oracle",
     design="DESIGN.md §3 C05")
